@@ -45,7 +45,7 @@ def _outcome(fn):
         return type(e).__name__, None
 
 
-ENTRY = ("datetime", "create", "convert", "instance", "set", "replace", "replace_fold", "on_at", "set_foreign", "on_at_foreign",
+ENTRY = ("datetime", "datetime_local_str", "create", "convert", "instance", "set", "replace", "replace_fold", "on_at", "set_foreign", "on_at_foreign",
          "parse", "tz_datetime", "naive_in_tz", "local")
 
 
@@ -57,6 +57,15 @@ def _call(pendulum, name, z, tzobj, f, fold, rse, recv):
     if name == "datetime":
         return fold, lambda: pendulum.datetime(y, mo, d, h, mi, s, us, tz=z, fold=fold,
                                                raise_on_unknown_times=rse)
+    if name == "datetime_local_str":
+        # the process-wide local timezone named by the STRING 'local' (it changes from zone to zone within one process)
+        def run_local():
+            pendulum.set_local_timezone(tzobj)
+            try:
+                return pendulum.datetime(y, mo, d, h, mi, s, us, tz="local", fold=fold, raise_on_unknown_times=rse)
+            finally:
+                pendulum.set_local_timezone()
+        return fold, run_local
     if name == "create":
         return fold, lambda: pendulum.DateTime.create(y, mo, d, h, mi, s, us, tz=tzobj, fold=fold,
                                                       raise_on_unknown_times=rse)
